@@ -63,6 +63,7 @@ fn main() {
         "lattice" => modes::lattice(seed, n, &mut out),
         "regress" => modes::regress(seed, n, &mut out),
         "rate" => modes::rate(seed, n, &mut out),
+        "popul" => modes::popul(seed, n, &mut out),
         "replay" => modes::replay(&file, &mut out),
         _ => {
             eprintln!("unknown mode {mode}");
